@@ -6,8 +6,8 @@
   all infix operators left-associative).
 
   The input is a list of characters. Recursion (nested parentheses, repetitions) is on a fuel
-  argument; the entry points supply `length + 1`, which is always enough because every
-  recursive call happens on a strictly shorter input.
+  argument; the entry points supply `2 * length + 2` (terms) or `length + 1` (lists), which is always enough because every
+  recursive call happens on a strictly shorter input and costs at most two units per character.
 -/
 import AnthemModel.Syntax.Asp
 namespace Anthem.Asp
@@ -238,7 +238,7 @@ def termArgs : Nat → List Char → List Term × List Char
   | fuel + 1, cs =>
     match skip cs with
     | ',' :: r =>
-      match termL (r.length + 1) (skip r) with
+      match termL (2 * r.length + 2) (skip r) with
       | some (t, r') => let (ts, r'') := termArgs fuel r'; (t :: ts, r'')
       | none => ([], cs)
     | _ => ([], cs)
@@ -251,7 +251,7 @@ def atomL (cs : List Char) : Option (Atom × List Char) :=
     let noTuple : Option (Atom × List Char) := some (⟨String.ofList s, []⟩, r)
     match skip r with
     | '(' :: r1 =>
-      match termL (r1.length + 1) (skip r1) with
+      match termL (2 * r1.length + 2) (skip r1) with
       | some (t, r2) =>
         let (ts, r3) := termArgs (r2.length + 1) r2
         match skip r3 with
@@ -279,11 +279,11 @@ def literalL (cs : List Char) : Option (Literal × List Char) :=
 
 /-- `comparison = { term ~ relation ~ term }` -/
 def comparisonL (cs : List Char) : Option (BodyAtom × List Char) :=
-  match termL (cs.length + 1) cs with
+  match termL (2 * cs.length + 2) cs with
   | some (l, r) =>
     match lexRelation (skip r) with
     | some (rel, r1) =>
-      match termL (r1.length + 1) (skip r1) with
+      match termL (2 * r1.length + 2) (skip r1) with
       | some (rhs, r2) => some (.cmp rel l rhs, r2)
       | none => none
     | none => none
@@ -374,7 +374,7 @@ def parseProgram (s : String) : Option Program := parseProgramL s.toList
 
 /-- `term_eoi` -/
 def parseTerm (s : String) : Option Term :=
-  match termL (s.length + 1) s.toList with
+  match termL (2 * s.length + 2) s.toList with
   | some (t, rest) => if (skip rest).isEmpty then some t else none
   | none => none
 
